@@ -204,7 +204,7 @@ def _run_driver_one(args, inp, timeout):
 
 
 JOBS = os.cpu_count() or 16
-SHARDED_MODES = ("frames", "chains", "owned", "client", "framed", "parse", "builder", "bodystruct")
+SHARDED_MODES = ("frames", "chains", "owned", "client", "framed", "parse", "builder", "bodystruct", "fnrun")
 
 
 def run_driver(args, inp, timeout=3000):
@@ -455,6 +455,46 @@ def model_parse(hexes):
     if rc != 0 or len(model) != len(hexes):
         raise RuntimeError("driver parse failed (rc=%s, %d results for %d cases): %s" % (rc, len(model), len(hexes), mout[-2000:]))
     return model
+
+
+def fn_correspondence(prop, tier):
+    """Per-function correspondence (Tie B at the level of single parser functions).  The functions of the parser that
+    are `pub` all the way (the table coq/gen/gen_fns.rs is regenerated from the source: all of core.rs -- number,
+    number_64, literal, quoted and the string / atom / text helpers, i.e. every hand-modelled leaf -- the section
+    parsers of rfc3501/body.rs and parse_response) are called one by one on inputs read off the translated grammar:
+    standalone sentences of each function, each with several followers, every proper prefix, and one-byte
+    substitutions.  The model runs the same function (Synth.run_fn on the regenerated term) on the same buffer;
+    verdict and consumed length must agree, for plain value types (bytes, str, numbers, Option, Vec) the value too.
+    Returns (cases compared, functions compared); raises Violation(found_input=False) on a disagreement."""
+    cap = 120 if tier == "quick" else 1500
+    rc, out = _run_driver_one(["fninputs", str(cap)], "", 900)
+    if rc != 0:
+        raise RuntimeError("driver fninputs failed: " + out[-1500:])
+    rc, names = run_harness(["fns", "list"])
+    if rc != 0:
+        raise RuntimeError("harness fns list failed: " + names[-1500:])
+    callable_fns = set(names.split())
+    lines = [l for l in out.split("\n") if l and l.split("\t", 1)[0] in callable_fns]
+    if not lines:
+        return 0, 0
+    inp = "\n".join(lines) + "\n"
+    rc, iout = run_harness(["fns"], inp=inp)
+    if rc != 0:
+        raise RuntimeError("harness fns failed: " + iout[-1500:])
+    rc, mout = run_driver(["fnrun"], inp)
+    impl = [l for l in iout.split("\n") if l]
+    model = [l for l in mout.split("\n") if l]
+    if rc != 0 or len(impl) != len(lines) or len(model) != len(lines):
+        raise RuntimeError("per-function runs: %d inputs, %d implementation lines, %d model lines (rc=%s)" % (len(lines), len(impl), len(model), rc))
+    fns = set()
+    for l, a, b in zip(lines, impl, model):
+        name, h = l.split("\t", 1)
+        fns.add(name)
+        same = (a == b) if len(a.split(" ")) > 2 or not a.startswith("OK") else (a.split(" ")[:2] == b.split(" ")[:2])
+        if not same:
+            raise Violation(prop, "per-function correspondence fails: the model of the parser function %s and the function itself disagree (model stale; the implementation-side oracle found nothing)" % name,
+                            "function %s\ninput %s\nimplementation: %s\nmodel:          %s" % (name, show_input(h), a[:400], b[:400]), False)
+    return len(lines), len(fns)
 
 
 _SENT = None
